@@ -58,7 +58,7 @@ def dump_entity(e, seen, depth=0):
         d["url"] = None
     proto = getattr(e, "proto", None)
     if proto:
-        d["proto"] = _s(proto[0])
+        d["proto"] = _s(proto[0] if isinstance(proto, (list, tuple)) else proto)
     ext = getattr(e, "extends", None)
     if ext is not None:
         d["extends"] = _s(ext)
